@@ -31,7 +31,7 @@ META = dict(
          "- Future, Task, object with __await__, generator-based coroutine - that completes later) with a fault history (raise / BaseException / timeout label with instant or slow cancellation clean-up / no-result / malformed / unknown / "
          "failing backend / raising pre- or post-hook / pre-, post-, post_save-, on_error-hook or set_result ending with asyncio.CancelledError "
          "(raised, or a cancelled future awaited: the callback task ends CANCELLED) or another BaseException; in ~16 % of the scenarios 2-4 "
-         "further recording middlewares whose hook invocations independently return, suspend for a virtual delay or fail, per message) followed by A+1 long probe tasks; Further family (own random stream): the REAL taskiq.api.run_receiver_task coroutine runs for the whole scenario over a scripted listen() that raises 0..3 times (ConnectionError, RuntimeError, TimeoutError, OSError, EOFError, a client's own class, a falsy exception object, an ExceptionGroup, BrokerError) as the first thing a session does / right after taking a message / while tasks are in flight / while idle, the remaining messages going to the re-started listening; N and wait_tasks_timeout set by the receiver class handed to it, stop = the finish event it gave to listen(); decided by the direct oracles only, every listen() session held to the statement by its own messages; non-trivial iff finite A, >= A messages "
+         "further recording middlewares whose hook invocations independently return, suspend for a virtual delay or fail, per message) followed by A+1 long probe tasks; Further family (own random stream): the REAL taskiq.api.run_receiver_task coroutine runs for the whole scenario over a scripted listen() that raises 0..3 times (ConnectionError, RuntimeError, TimeoutError, OSError, EOFError, a client's own class, a falsy exception object, an ExceptionGroup, BrokerError) as the first thing a session does / right after taking a message / while tasks are in flight / while idle, the remaining messages going to the re-started listening; N and wait_tasks_timeout set by the receiver class handed to it, stop = the finish event it gave to listen(); decided by the direct oracles only, every listen() session held to the statement by its own messages; Further family (recv_props.gen_relisten, own random stream): ONE Receiver object runs several listen() sessions under a supervisor - it listens again after listen() failed while every slot was busy (1-3 times, back-off, same / fresh finish event) or after listen() returned from a graceful stop whose wait_tasks_timeout had expired, callbacks of the earlier session still in flight: the Receiver object is the worker, its sessions share the limit (all of them together never exceed A; saturation probe and progress demanded unless a session ended with the runner holding an unused slot); non-trivial iff finite A, >= A messages "
          "ending abnormally and a probe present; distinct by canonical scenario",
     trusted_base=["model: coq/theories/RecvLTS.v", "logging shims + raw log -> LTS event grouping: harness/shims.py; harness/vloop.py",
                   "asyncio semantics assumed by the model: a task step is atomic; Semaphore / Queue / wait / done-callbacks as documented"],
@@ -39,7 +39,11 @@ META = dict(
                  "the broker's listen() generator takes a message only at its yield; in the proofs it raises nothing but StopAsyncIteration. "
                  "Runs under run_receiver_task with a failing listen() are oracle-checked only, with 'one worker' read as one listening "
                  "session (the reading that demands less): a callback left running by a session whose listen() failed is not counted "
-                 "against the session that replaced it"],
+                 "against the session that replaced it",
+                 "one Receiver object that listens several times is one worker over all its sessions (limit over all of them together). "
+                 "A second listen() is promised the full capacity only if no earlier session ended while its runner held a slot it had "
+                 "given to no callback (listen() returned from a stop, or failed while the runner waited for a message): runner() gives "
+                 "such a slot up by construction - then only the limit is demanded"],
 )
 PROF = dict(probe=True, stop_p=.12, n_p=.1, ends_p=.08, wtt_p=.2, slowcancel=.2, abort_p=.07, mw_p=.16)
 # run_receiver_task running for the whole scenario over a listen() that fails 0..3 times (recv_props.gen_live)
